@@ -379,7 +379,68 @@ def _methods(path, clsname, names):
     return out
 
 
+def _fresh_literal(n):
+    """a literal that builds NEW objects on every evaluation and contains no reference to a shared container"""
+    if isinstance(n, ast.Constant):
+        return True
+    if isinstance(n, (ast.List, ast.Tuple)):
+        return all(_fresh_literal(e) for e in n.elts)
+    if isinstance(n, ast.Dict):
+        return all(k is not None and _fresh_literal(k) and _fresh_literal(v) for k, v in zip(n.keys, n.values))
+    if isinstance(n, ast.BinOp) and isinstance(n.op, ast.Mult):          # 6 * [0.0]
+        return _fresh_literal(n.left) and _fresh_literal(n.right)
+    if isinstance(n, ast.UnaryOp) and isinstance(n.operand, ast.Constant):
+        return True
+    return False
+
+
+def _no_shared_defaults(path, clsname, init_attrs):
+    """The model (and the property) need the metadata containers of two objects to be two objects:
+    - no class-level attribute of the class may be a mutable container (dict / list / set literal or constructor call,
+      comprehension): such a default is ONE object shared by all instances;
+    - __init__ (when the class has one) must build every attribute in `init_attrs` from a literal made of constants
+      (nested dict / list literals, `n * [const]`), not from a copy of something that lives longer than the call."""
+    fname = os.path.basename(path)
+    tree = ast.parse(open(path).read(), path)
+    cs = [n for n in tree.body if isinstance(n, ast.ClassDef) and n.name == clsname]
+    if len(cs) != 1:
+        raise TranslatorRefusal("%s: class %s not found exactly once" % (fname, clsname))
+    for n in cs[0].body:
+        targets, value = [], None
+        if isinstance(n, ast.Assign):
+            targets, value = n.targets, n.value
+        elif isinstance(n, ast.AnnAssign) and n.value is not None:
+            targets, value = [n.target], n.value
+        if value is None:
+            continue
+        mutable = isinstance(value, (ast.Dict, ast.List, ast.Set, ast.ListComp, ast.DictComp, ast.SetComp)) or (
+            isinstance(value, ast.Call) and ast.unparse(value.func) in ("dict", "list", "set", "defaultdict", "OrderedDict",
+                                                                        "collections.defaultdict", "collections.OrderedDict", "bytearray"))
+        if mutable:
+            raise TranslatorRefusal("%s:%s: %s.%s is a class-level mutable container: one object shared by every instance (an in-place edit "
+                                    "through one structure would show up in every later read)" % (fname, n.lineno, clsname, ast.unparse(targets[0])))
+    inits = [n for n in cs[0].body if isinstance(n, ast.FunctionDef) and n.name == "__init__"]
+    if not init_attrs:
+        return
+    if len(inits) != 1:
+        raise TranslatorRefusal("%s: %s.__init__ not defined exactly once" % (fname, clsname))
+    found = set()
+    for st in ast.walk(inits[0]):
+        if isinstance(st, ast.Assign):
+            for t in st.targets:
+                if isinstance(t, ast.Attribute) and isinstance(t.value, ast.Name) and t.value.id == "self" and t.attr in init_attrs:
+                    if not _fresh_literal(st.value):
+                        raise TranslatorRefusal("%s:%s: %s.__init__ builds self.%s from `%s`, not from a literal of constants: nested containers "
+                                                "could be shared between instances" % (fname, st.lineno, clsname, t.attr, ast.unparse(st.value)[:60]))
+                    found.add(t.attr)
+    missing = set(init_attrs) - found
+    if missing:
+        raise TranslatorRefusal("%s:%s: %s.__init__ does not assign %s" % (fname, inits[0].lineno, clsname, sorted(missing)))
+
+
 def effect_lists():
+    _no_shared_defaults(os.path.join(SRC, "structure.py"), "Structure", [])
+    _no_shared_defaults(os.path.join(SRC, "pdffitstructure.py"), "PDFFitStructure", ["pdffit"])
     s = _methods(os.path.join(SRC, "structure.py"), "Structure", ["read", "readStr", "write"])
     p = _methods(os.path.join(SRC, "pdffitstructure.py"), "PDFFitStructure", ["read", "readStr"])
     return {"structure_read": s["read"], "structure_readstr": s["readStr"], "structure_write": s["write"],
